@@ -13,6 +13,15 @@ pub enum Placement {
     Start,
     /// buffer starts `off` bytes (0..=63) after a 64-aligned interior address
     Interior(u8),
+    /// buffer straddles an interior 4 KiB page boundary, which falls `cross_offset(k)` bytes
+    /// after its start (k in 0..=189)
+    Cross(u8),
+}
+
+/// distance from the buffer start to the page boundary for `Placement::Cross(k)`
+pub fn cross_offset(k: u8) -> usize {
+    let k = k.min(189) as usize;
+    if k < 128 { k } else { 128 + (k - 128) * 16 }
 }
 
 impl Placement {
@@ -21,13 +30,15 @@ impl Placement {
             Placement::End => 0,
             Placement::Start => 1,
             Placement::Interior(o) => 2 + (o & 63),
+            Placement::Cross(k) => 66 + k.min(189),
         }
     }
     pub fn from_code(c: u8) -> Placement {
         match c {
             0 => Placement::End,
             1 => Placement::Start,
-            o => Placement::Interior((o - 2) & 63),
+            o if o < 66 => Placement::Interior((o - 2) & 63),
+            o => Placement::Cross(o - 66),
         }
     }
 }
@@ -95,6 +106,13 @@ impl Arena {
                 Placement::End => self.hi().sub(len),
                 Placement::Start => self.lo(),
                 Placement::Interior(o) => self.lo().add(64 + (o as usize & 63)),
+                Placement::Cross(k) => {
+                    if len + PAGE > self.usable {
+                        self.hi().sub(len) // does not fit behind the first interior boundary
+                    } else {
+                        self.lo().add(PAGE - cross_offset(k).min(len))
+                    }
+                }
             }
         }
     }
